@@ -254,13 +254,31 @@ func (cr *CheckRun) finish() int {
 		reproduced := false
 		dir := ""
 		if doReplay {
-			seq++
 			replayed++
-			rr := Replay(cr.P, ReplaySpec{Property: cr.ID, Pkg: v.Job.Pkg, Fn: v.Job.Fn, Label: v.Label, Panic: v.Panic,
-				Params: v.Job.Params, Model: v.Model, Choices: v.Choices}, seq)
+			var rr ReplayResult
+			// the abstraction (opaque blobs, uninterpreted functions) can make one instance unreproducible while another
+			// instance of the same failing obligation is concrete enough: try a few distinct instances
+			tried := map[string]bool{}
+			for _, cand := range g.vs {
+				ck := fmt.Sprint(cand.Job.Tag, cand.Choices)
+				if tried[ck] {
+					continue
+				}
+				if len(tried) >= 4 {
+					break
+				}
+				tried[ck] = true
+				seq++
+				rr = Replay(cr.P, ReplaySpec{Property: cr.ID, Pkg: cand.Job.Pkg, Fn: cand.Job.Fn, Label: cand.Label, Panic: cand.Panic,
+					Params: cand.Job.Params, Model: cand.Model, Choices: cand.Choices}, seq)
+				cr.validated++
+				if rr.Reproduced {
+					v = cand
+					break
+				}
+			}
 			reproduced = rr.Reproduced
 			dir = rr.Dir
-			cr.validated++
 			if !reproduced {
 				tail := rr.Output
 				if len(tail) > 600 {
@@ -389,9 +407,13 @@ func (cr *CheckRun) writeEvidence(violations int, knownMatched map[string]int) {
 		"wall_s":      time.Since(cr.start).Seconds(),
 		"violations":  violations,
 	}
-	os.MkdirAll(filepath.Join(verifDir, "evidence"), 0o755)
+	evDir := filepath.Join(verifDir, "evidence")
+	if d := os.Getenv("GOSX_EVIDENCE_DIR"); d != "" {
+		evDir = d // experiments against seeded changes must not overwrite the evidence of the real tree
+	}
+	os.MkdirAll(evDir, 0o755)
 	b, _ := json.MarshalIndent(ev, "", " ")
-	os.WriteFile(filepath.Join(verifDir, "evidence", cr.ID+".json"), b, 0o644)
+	os.WriteFile(filepath.Join(evDir, cr.ID+".json"), b, 0o644)
 }
 
 // ---- entry ----
